@@ -67,7 +67,7 @@ def thin_lengths(prop, tier):
 
 def long_walks(prop, tier, seed):
     """long histories with many live handles: 12-16 slots, 30-40 blocks, frame depth 3, depth 200-400"""
-    ns, nb, n, d = (12, 30, 6, 200) if tier == "quick" else (16, 40, 40, 300)
+    ns, nb, n, d = (12, 30, 6, 200) if tier == "quick" else (16, 40, 12, 300)
     return [sized(prop, tier, "sized_long_walks_" + tier[0], ALL_SIZED, ns, nb, 3, hows=("new", "newB", "unique", "from", "box"), simulate=(n, d, seed + 1)),
             thin(prop, tier, "thin_long_walks_" + tier[0], THIN_OPS, ns, nb, 3, 3, simulate=(n if tier == "thorough" else 3, d, seed + 2)),
             slices(prop, tier, "slices_long_walks_" + tier[0], ns, nb, 3, simulate=(n, d, seed + 3)),
